@@ -3,6 +3,7 @@
 mod afio;
 mod obs;
 mod dynamic;
+mod enc;
 mod ext;
 mod io;
 mod sat;
@@ -24,6 +25,7 @@ fn main() {
         "dynamic" => dynamic::cmd_dynamic(&a),
         "sat" => sat::cmd_sat(&a),
         "io" => io::cmd_io(&a),
+        "enc" => enc::cmd_enc(&a),
         "ext" => ext::cmd_ext(&a),
         "extone" => ext::cmd_extone(&a),
         c => {
